@@ -95,7 +95,7 @@ CHECKS = {
     "C13": (
         "fault_enumeration",
         "exhaustive crash-point enumeration with an effect-counting interposer (kill before every external effect; torn writes and crash-during-recovery pairs in the thorough tier)",
-        "For 9 scenarios (create with ZID-less notes; reindex with stamp + new note + new pages incl. a sub-directory; reindex of pages sharing a tag; create -f with a broken page; reindex whose changes need no write-back; reindex of a page whose notes carry properties and single-use tags, so that removing the old page issues several SQL statements; reindex after a page was renamed and a note cut and pasted with its ZID into another page; reindex after a whitelisted broken page was repaired; reindex with more ZID-less notes on a day whose ZIDs an earlier run already handed out) the real command runs in a child whose file writes, renames, unlinks and SQL commits are counted; for every k the child is killed with os._exit immediately before effect k, the same command is re-run to completion, and the recovery invariant is checked: clean exit, raw index == recompiled files, every note has a ZID, no ZID on two notes, user text multiset unchanged, and files/index/meta equal to the uninterrupted run up to renaming of fresh ZIDs. Thorough adds 0% and 50% torn variants of every file write and all ordered pairs of crash points (crash again during recovery).",
+        "For 10 scenarios (create with ZID-less notes; reindex with stamp + new note + new pages incl. a sub-directory; reindex of pages sharing a tag; create -f with a broken page; reindex whose changes need no write-back; reindex of a page whose notes carry properties and single-use tags, so that removing the old page issues several SQL statements; reindex after a page was renamed and a note cut and pasted with its ZID into another page; reindex after a whitelisted broken page was repaired; reindex with more ZID-less notes on a day whose ZIDs an earlier run already handed out; reindex after a whitelisted page was repaired with nothing to write back) the real command runs in a child whose file writes, renames, unlinks and SQL commits are counted; for every k the child is killed with os._exit immediately before effect k, the same command is re-run to completion, and the recovery invariant is checked: clean exit, raw index == recompiled files, every note has a ZID, no ZID on two notes, user text multiset unchanged, and files/index/meta equal to the uninterrupted run up to renaming of fresh ZIDs. Thorough adds 0% and 50% torn variants of every file write and all ordered pairs of crash points (crash again during recovery).",
         "SQLite commit atomic (journal trusted); no cross-file write reordering or power loss; mkdir is not a crash point.",
         "§4 C13",
     ),
